@@ -1444,7 +1444,10 @@ def _m_int(ctx, args, kwargs):
         return SInt(int_term(v))
     if isinstance(v, SStr):
         n = z3.StrToInt(v.term)
-        if ctx.branch(z3.InRe(v.term, z3.Plus(z3.Range("0", "9")))):
+        # (stated as `digits* and non-empty`: the same atoms the spec intrinsic is_digits and the length bounds of
+        # the shapes put into the path condition, so the arithmetic abstraction alone decides the branch -- no
+        # string-solver call whose answer could depend on machine load)
+        if ctx.branch(z3.And(z3.InRe(v.term, z3.Star(z3.Range("0", "9"))), z3.Length(v.term) > 0)):
             ctx.assume_raw(n >= 0)
             # all-digit string (CPython also accepts sign, blanks and underscores: those
             # inputs are outside the modelled domain and end up on the other branch)
